@@ -82,7 +82,7 @@ def _iter_spec(rng: random.Random, name: str, maxlen: int = 8) -> dict:
             pool = [None, None, 0, False, "", 1, ["T"], ["Op", 1], ["Op", 2], ["Aw", 1], ["Aw", 2], ["La", 1], ["An", 1]]
             spec["srcs"] = [[rng.choice(pool) for _ in src] for src in srcs]
         if name == "map":
-            spec["fns"] = [rng.choice(["mk", "mk", "mk", "tup", "none_or_item", "falsy_result", "lookalike_result"])]
+            spec["fns"] = [rng.choice(["mk", "mk", "mk", "tup", "none_or_item", "falsy_result", "lookalike_result", "later_payload"])]
         if name == "zip_longest" and rng.random() < 0.5:
             spec["params"]["fillvalue"] = rng.choice([["item", 7, "fill"], ["none"], ["raw", 0], ["raw", ["Aw", 8]], ["raw", ["La", 8]],
                                                        ["raw", ["An", 8]]])
